@@ -81,7 +81,7 @@ func cmdVCs(args []string) int {
 			continue
 		}
 		x.lemmaText = (&Check{P: P, assume: map[string]bool{}}).lemmaTexts(x, c.Lemmas)
-		fmt.Printf("== %s: %d VCs, %d paths\n", n, len(x.vcs), x.paths)
+		fmt.Printf("== %s: %d VCs, %d paths, max alloc sites on a path: %d\n", n, len(x.vcs), x.paths, x.maxAllocs)
 		if *propF != "" {
 			ck := &Check{P: P, Prop: *propF, Tier: "quick", Verif: verifDir()}
 			var jobs []job
